@@ -353,6 +353,16 @@ static void run_actype(int part) {
             }
         }
         vc_sample("opt 1 1.5 off abc abc abc [TAKEALL|AA_BOOL|A1_INT|A2_FLOAT]");
+        /* every individually typed position A1..A5 against every AA default: the value at that position and the one at the
+         * next position (the first one that only the default covers is the 6th) run over all kinds, the rest fit the default */
+        const char *R8[] = {"0", "-12", "1.5", "abc", "on", "Off", "1.", "TRUE"}; const char *FIT[4] = {"abc", "7", "2.5", "yes"};
+        for (int pos = 0; pos < 5; pos++) for (int t = 1; t < 4; t++) for (int aa = 0; aa < 4; aa++) for (int n = pos + 1; n <= 7; n++) for (int v1 = 0; v1 < 8; v1++) for (int v2 = 0; v2 < (pos + 1 < n ? 8 : 1); v2++) {
+            uint32_t take = QAC_TAKEALL | tbit(aa, 5) | tbit(t, pos);
+            for (int j = 0; j < 8; j++) { eff[j] = aa; args[j] = FIT[aa]; }
+            eff[pos] = t; args[pos] = R8[v1]; if (pos + 1 < n) args[pos + 1] = R8[v2];
+            snprintf(key, sizeof key, "actype:pos:%d:%d:%d:%d:%d:%d", pos, t, aa, n, v1, v2);
+            type_case(take, 0xFF, eff, args, n, 1, key);
+        }
     }
 }
 
@@ -606,7 +616,7 @@ static int replay(const char *key) {
     else if (!strncmp(key, "inimulti:", 9)) run_inimulti(4);
     else if (!strncmp(key, "actype:single", 13) || !strncmp(key, "actype:count", 12)) run_actype(0);
     else if (!strncmp(key, "actype:multi", 12)) run_actype(1);
-    else if (!strncmp(key, "actype:all", 10)) run_actype(2);
+    else if (!strncmp(key, "actype:all", 10) || !strncmp(key, "actype:pos", 10)) run_actype(2);
     else if (!strncmp(key, "acquote:", 8)) run_acquote(3, 0, 1);
     else if (!strncmp(key, "acobject:", 9)) run_acobject();
     else if (!strncmp(key, "acdeep:", 7)) deep_case(atoi(key + 7));
